@@ -22,18 +22,23 @@ inductive Res (β : Type) where
 
 /-! ### specification -/
 
-/-- `u → w` is an edge the code follows (`k = g[0].size()`) -/
-def Edge (g : Graph) (k u w : Nat) : Prop := ∃ nb, g[u]? = some nb ∧ w ∈ nb.take k
+/-- `u → w` is an edge of `g` (`w` occurs in the list of `u`) -/
+def Edge (g : Graph) (u w : Nat) : Prop := ∃ nb, g[u]? = some nb ∧ w ∈ nb
 
-inductive Reach (g : Graph) (k : Nat) : Nat → Nat → Prop where
-  | refl (u : Nat) : Reach g k u u
-  | step {u v w : Nat} : Reach g k u v → Edge g k v w → Reach g k u w
+inductive Reach (g : Graph) : Nat → Nat → Prop where
+  | refl (u : Nat) : Reach g u u
+  | step {u v w : Nat} : Reach g u v → Edge g v w → Reach g u w
 
-/-- degree used by the code -/
+/-- degree used by the code: `neighbors[0].size()` -/
 def degree (g : Graph) : Nat := (g.headD []).length
 
+/-- the edges the code follows (`is_connected` and the Dijkstra of `routines/isomap.hpp` alike): the first
+    `degree g` entries of the lists of the samples `0..N-1` -/
+def followed (g : Graph) (N : Nat) : Graph := (g.take N).map (·.take (degree g))
+
 /-- every sample reaches every other sample along the edges the method follows (⇔ every Dijkstra distance finite) -/
-def StronglyConnected (g : Graph) (N : Nat) : Prop := ∀ u, u < N → ∀ v, v < N → Reach g (degree g) u v
+def StronglyConnected (g : Graph) (N : Nat) : Prop :=
+  ∀ u, u < N → ∀ v, v < N → Reach (followed g N) u v
 
 /-! ### `is_connected` -/
 
@@ -75,7 +80,8 @@ def reachesAll (N : Nat) (g : Graph) : Res Bool := dfs N g (dfsFuel g) [] [0]
     (`none` = `neighbors[i][j]` outside the vectors, or a neighbour index outside `backward`) -/
 def forwardOf (N k : Nat) (g : Graph) : Option Graph :=
   if g.length < N then none
-  else if (g.take N).all (fun l => k ≤ l.length && (l.take k).all (· < N)) then some ((g.take N).map (·.take k))
+  else if (g.take N).all (fun l => decide (k ≤ l.length) && (l.take k).all (fun w => decide (w < N))) then
+    some ((g.take N).map (·.take k))
   else none
 
 /-- `backward[neighbor].push_back(i)` for `i = 0..N-1`, `j = 0..k-1`: list `v` of the result enumerates, in
